@@ -34,7 +34,12 @@ fn main() {
             out.ev(json!({"e": "prog", "id": id, "h": hi + 1, "desc": p["desc"]}));
             hv_dfir::rt::CURRENT_PROG.store(id, std::sync::atomic::Ordering::Relaxed);
             let before = out.lines;
-            if !hv_dfir::gen_progs::run(id as u32, steps, &mut out) {
+            let mut found = hv_dfir::gen_progs::run(id as u32, steps, &mut out);
+            #[cfg(feature = "progs_x")]
+            if !found {
+                found = hv_dfir::gen_progs_x::run(id as u32, steps, &mut out);
+            }
+            if !found {
                 eprintln!("program {} is not in this build of gen_progs.rs (stale build?)", id);
                 std::process::exit(3);
             }
